@@ -22,8 +22,8 @@ VERUS_UNITS = {
                    props=['C03', 'C18', 'C04', 'C02', 'C06']),
     'U-VAL-V': dict(module='contracts.verus.transcode_value', min_verified=3, timeout=600,
                     props=['C01', 'C06', 'C02']),
-    'U-JSN-V': dict(module='contracts.verus.json_transcode', min_verified=1, timeout=600,
-                    props=['C03', 'C04', 'C05', 'C02']),
+    'U-JSN-V': dict(module='contracts.verus.json_transcode', min_verified=3, timeout=600,
+                    props=['C03', 'C04', 'C05', 'C02', 'C12']),
     'U-TML-V': dict(module='contracts.verus.toml_output', min_verified=10, timeout=600,
                     props=['C08', 'C12', 'C11', 'C10', 'C09', 'C02']),
     'U-LIB-V': dict(module='contracts.verus.lib_translate', min_verified=9, timeout=600,
